@@ -43,11 +43,15 @@ def build_state(params, B, concrete=None):
     cons = []; sy = {}
     if concrete is not None:
         target = S(concrete['target'])
+    elif params.get('fixed_target'):
+        target = S(params['fixed_target'])
     else:
         kw = dict(alphabet=target_alphabet)
+        if params.get('alphabet'):
+            kw = dict(alphabet=[ord(ch) for ch in params['alphabet']])
         if params.get('tlen') is not None: kw['exact_len'] = params['tlen']
         else: kw['minlen'] = 1
-        target = SymStr.fresh('t', B['target_cap'], cons, **kw)
+        target = SymStr.fresh('t', max(B['target_cap'], params.get('tlen') or 0), cons, **kw)
         if params.get('first') is not None:
             # case split on the first byte class to spread work over processes
             b0 = target.flat().bs[0]
